@@ -7,4 +7,838 @@ import CoreBGP.Spec.Update
 namespace CoreBGP.Lemmas
 open CoreBGP CoreBGP.Model
 
+/-! ## big-endian helpers -/
+
+theorem be16_toNat (a b : UInt8) : (be16 a b).toNat = Spec.n16 a b := by
+  simp only [be16, Spec.n16, UInt16.toNat_ofNat']
+  have := a.toNat_lt; have := b.toNat_lt; omega
+
+theorem u16_n16 (a b : UInt8) : Spec.u16 (Spec.n16 a b) = [a, b] := by
+  have ha := a.toNat_lt; have hb := b.toNat_lt
+  have h1 : (a.toNat * 256 + b.toNat) / 256 = a.toNat := by omega
+  have h2 : (a.toNat * 256 + b.toNat) % 256 = b.toNat := by omega
+  simp only [Spec.u16, Spec.n16, h1, h2, UInt8.ofNat_toNat]
+
+/-! ## `Spec.chooseNotif` as a priority search -/
+
+/-- first leaf of a class -/
+def firstOf (c : Spec.Class) (ls : Spec.Leaves) : Option Notif :=
+  (ls.find? (fun l => l.1 = c)).map (·.2)
+
+theorem firstOf_append (c : Spec.Class) (a b : Spec.Leaves) :
+    firstOf c (a ++ b) = (firstOf c a).or (firstOf c b) := by
+  unfold firstOf
+  rw [List.find?_append]
+  cases List.find? (fun l => decide (l.1 = c)) a <;> simp
+
+theorem firstOf_nil (c : Spec.Class) : firstOf c [] = none := rfl
+
+theorem firstOf_eq_none {c : Spec.Class} {ls : Spec.Leaves} :
+    firstOf c ls = none ↔ ∀ l ∈ ls, l.1 ≠ c := by
+  simp [firstOf]
+
+theorem rank_inj {a b : Spec.Class} (h : a.rank = b.rank) : a = b := by
+  cases a <;> cases b <;> simp [Spec.Class.rank] at h <;> rfl
+
+theorem rank_le (a : Spec.Class) : a.rank ≤ 4 := by
+  cases a <;> simp [Spec.Class.rank]
+
+theorem best_ge (ls : Spec.Leaves) : ∀ (m k : Nat),
+    k ≤ ls.foldl (fun m l => max m l.1.rank) m ↔ (k ≤ m ∨ ∃ l ∈ ls, k ≤ l.1.rank) := by
+  induction ls with
+  | nil => intro m k; simp
+  | cons a as ih =>
+    intro m k
+    simp only [List.foldl_cons, ih, List.mem_cons, exists_eq_or_imp]
+    have : k ≤ max m a.fst.rank ↔ k ≤ m ∨ k ≤ a.fst.rank := by omega
+    rw [this, or_assoc]
+
+theorem chooseNotif_of_first {c : Spec.Class} {ls : Spec.Leaves} {n : Notif}
+    (hr : 0 < c.rank) (hle : ∀ l ∈ ls, l.1.rank ≤ c.rank) (h : firstOf c ls = some n) :
+    Spec.chooseNotif ls = n := by
+  have hbest : ls.foldl (fun m l => max m l.1.rank) 0 = c.rank := by
+    apply Nat.le_antisymm
+    · apply Nat.le_of_not_lt
+      intro hlt
+      have := (best_ge ls 0 (c.rank + 1)).1 hlt
+      rcases this with h0 | ⟨l, hl, h1⟩
+      · omega
+      · have := hle l hl; omega
+    · apply (best_ge ls 0 c.rank).2
+      right
+      simp only [firstOf, Option.map_eq_some_iff] at h
+      obtain ⟨l, hl, _⟩ := h
+      have hm := List.mem_of_find?_eq_some hl
+      have hp := List.find?_some hl
+      simp at hp
+      exact ⟨l, hm, by rw [hp]; exact Nat.le_refl _⟩
+  unfold Spec.chooseNotif
+  simp only [hbest]
+  have hne : c.rank ≠ 0 := by omega
+  simp only [hne, if_false]
+  have hcongr : ls.find? (fun l => decide (l.1.rank = c.rank)) = ls.find? (fun l => decide (l.1 = c)) := by
+    congr 1; funext l
+    by_cases hh : l.1 = c
+    · simp [hh]
+    · have : l.1.rank ≠ c.rank := fun h' => hh (rank_inj h')
+      simp [hh, this]
+  rw [hcongr]
+  simp only [firstOf, Option.map_eq_some_iff] at h
+  obtain ⟨l, hl, rfl⟩ := h
+  rw [hl]
+
+theorem chooseNotif_of_rank0 {ls : Spec.Leaves} (h : ∀ l ∈ ls, l.1.rank = 0) :
+    Spec.chooseNotif ls = Spec.genericUpdate := by
+  have hbest : ls.foldl (fun m l => max m l.1.rank) 0 = 0 := by
+    apply Nat.le_antisymm _ (Nat.zero_le _)
+    apply Nat.le_of_not_lt
+    intro hlt
+    rcases (best_ge ls 0 1).1 hlt with h0 | ⟨l, hl, h1⟩
+    · omega
+    · have := h l hl; omega
+  unfold Spec.chooseNotif
+  simp [hbest]
+
+/-- `chooseNotif` as a priority search -/
+theorem chooseNotif_eq (ls : Spec.Leaves) :
+    Spec.chooseNotif ls =
+      match firstOf .notification ls, firstOf .withdraw ls, firstOf .discard ls, firstOf .other ls with
+      | some n, _, _, _ => n
+      | none, some n, _, _ => n
+      | none, none, some n, _ => n
+      | none, none, none, some n => n
+      | none, none, none, none => Spec.genericUpdate := by
+  split
+  next n _ _ _ h => 
+    exact chooseNotif_of_first (c := .notification) (by decide) (fun l _ => rank_le _) h
+  next n _ _ h4 h3 =>
+    refine chooseNotif_of_first (c := .withdraw) (by decide) ?_ h3
+    intro l hl
+    have := firstOf_eq_none.1 h4 l hl
+    revert this; cases l.1 <;> simp [Spec.Class.rank]
+  next n _ h4 h3 h2 =>
+    refine chooseNotif_of_first (c := .discard) (by decide) ?_ h2
+    intro l hl
+    have := firstOf_eq_none.1 h4 l hl
+    have := firstOf_eq_none.1 h3 l hl
+    revert this; revert this; cases l.1 <;> simp [Spec.Class.rank]
+  next n h4 h3 h2 h1 =>
+    refine chooseNotif_of_first (c := .other) (by decide) ?_ h1
+    intro l hl
+    have := firstOf_eq_none.1 h4 l hl
+    have := firstOf_eq_none.1 h3 l hl
+    have := firstOf_eq_none.1 h2 l hl
+    revert this; revert this; revert this; cases l.1 <;> simp [Spec.Class.rank]
+  next h4 h3 h2 h1 =>
+    apply chooseNotif_of_rank0
+    intro l hl
+    have := firstOf_eq_none.1 h4 l hl
+    have := firstOf_eq_none.1 h3 l hl
+    have := firstOf_eq_none.1 h2 l hl
+    have := firstOf_eq_none.1 h1 l hl
+    revert this; revert this; revert this; revert this; cases l.1 <;> simp [Spec.Class.rank]
+
+
+
+theorem n16_le (a b : UInt8) : Spec.n16 a b ≤ 65535 := by
+  have := a.toNat_lt; have := b.toNat_lt; simp only [Spec.n16]; omega
+
+theorem u16_eq_cons {n : Nat} (h : n ≤ 65535) :
+    ∃ x y, Spec.u16 n = [x, y] ∧ Spec.n16 x y = n := by
+  refine ⟨_, _, rfl, ?_⟩
+  simp only [Spec.n16, UInt8.toNat_ofNat']
+  omega
+
+theorem partition_reconstruct (b w a n : Bytes) (h : Spec.partition b = some (w, a, n)) :
+    Spec.u16 w.length ++ w ++ Spec.u16 a.length ++ a ++ n = b ∧ w.length ≤ 65535 ∧ a.length ≤ 65535 := by
+  unfold Spec.partition at h
+  split at h
+  next w1 w2 r1 =>
+    simp only at h
+    split at h
+    · exact absurd h (by simp)
+    next hlen =>
+      split at h
+      next p1 p2 r2 hd =>
+        split at h
+        · exact absurd h (by simp)
+        next hlen2 =>
+          simp only [Option.some.injEq, Prod.mk.injEq] at h
+          obtain ⟨rfl, rfl, rfl⟩ := h
+          have hw : (List.take (Spec.n16 w1 w2) r1).length = Spec.n16 w1 w2 := by
+            rw [List.length_take]; omega
+          have ha : (List.take (Spec.n16 p1 p2) r2).length = Spec.n16 p1 p2 := by
+            rw [List.length_take]; omega
+          rw [hw, ha, u16_n16, u16_n16]
+          refine ⟨?_, n16_le _ _, n16_le _ _⟩
+          have : r1 = List.take (Spec.n16 w1 w2) r1 ++ List.drop (Spec.n16 w1 w2) r1 := (List.take_append_drop _ _).symm
+          conv => rhs; rw [this, hd]
+          simp [List.take_append_drop]
+      next => exact absurd h (by simp)
+  next => exact absurd h (by simp)
+
+
+theorem ofNat_toNat8 (l : UInt8) : UInt8.ofNat l.toNat = l := UInt8.ofNat_toNat
+
+theorem attrs_reconstruct : ∀ (fuel : Nat) (b : Bytes),
+    ((Spec.attrs fuel b).1.map Spec.attrWire).flatten ++ (Spec.attrs fuel b).2 = b := by
+  intro fuel
+  induction fuel with
+  | zero => intro b; simp [Spec.attrs]
+  | succ fuel ih =>
+    intro b
+    unfold Spec.attrs
+    split
+    · simp
+    next f t rest =>
+      split
+      next hx =>
+        split
+        next l1 l2 v =>
+          split
+          · simp
+          next hlen =>
+            have hl : (List.take (Spec.n16 l1 l2) v).length = Spec.n16 l1 l2 := by
+              rw [List.length_take]; omega
+            have := ih (List.drop (Spec.n16 l1 l2) v)
+            simp only [List.map_cons, List.flatten_cons, Spec.attrWire, hx, if_true, hl, u16_n16,
+              List.append_assoc, this]
+            simp [List.take_append_drop]
+        · simp
+      next hx =>
+        split
+        next l v =>
+          split
+          · simp
+          next hlen =>
+            have hl : (List.take l.toNat v).length = l.toNat := by
+              rw [List.length_take]; omega
+            have := ih (List.drop l.toNat v)
+            simp only [List.map_cons, List.flatten_cons, Spec.attrWire, hx, if_false, hl, UInt8.ofNat_toNat,
+              List.append_assoc, this]
+            simp [List.take_append_drop]
+        · simp
+    · simp
+
+
+theorem attrs_wire (as : List Spec.Attr)
+    (hfit : ∀ a ∈ as, (a.flags.toNat / 16 % 2 = 1 → a.value.length ≤ 65535) ∧ (a.flags.toNat / 16 % 2 = 0 → a.value.length ≤ 255)) :
+    ∀ fuel, ((as.map Spec.attrWire).flatten).length < fuel →
+      Spec.attrs fuel (as.map Spec.attrWire).flatten = (as, []) := by
+  induction as with
+  | nil =>
+    intro fuel h
+    cases fuel with
+    | zero => simp at h
+    | succ k => simp [Spec.attrs]
+  | cons a as ih =>
+    intro fuel h
+    have ih' := ih (fun x hx => hfit x (List.mem_cons_of_mem _ hx))
+    obtain ⟨hf1, hf2⟩ := hfit a List.mem_cons_self
+    cases fuel with
+    | zero => simp at h
+    | succ k =>
+      obtain ⟨fl, code, value⟩ := a
+      simp only [List.map_cons, List.flatten_cons] at h ⊢
+      by_cases hx : fl.toNat / 16 % 2 = 1
+      · obtain ⟨x, y, hu, hn⟩ := u16_eq_cons (hf1 hx)
+        simp only at hu hn
+        simp only [Spec.attrWire, hx, if_true, hu, List.cons_append, List.nil_append] at h ⊢
+        unfold Spec.attrs
+        simp only [hx, if_true, hn]
+        have hlen : ¬ (value ++ (List.map Spec.attrWire as).flatten).length < value.length := by
+          simp
+        simp only [hlen, if_false, List.take_left', List.drop_left']
+        rw [ih' k (by simp only [List.length_cons, List.length_append] at h; omega)]
+      · have hx0 : fl.toNat / 16 % 2 = 0 := by omega
+        have hv := hf2 hx0
+        simp only at hv
+        simp only [Spec.attrWire, hx, if_false, List.cons_append, List.nil_append] at h ⊢
+        unfold Spec.attrs
+        have hn : (UInt8.ofNat value.length).toNat = value.length := by
+          rw [UInt8.toNat_ofNat']; omega
+        simp only [hx, if_false, hn]
+        have hlen : ¬ (value ++ (List.map Spec.attrWire as).flatten).length < value.length := by
+          simp
+        simp only [hlen, if_false, List.take_left', List.drop_left']
+        rw [ih' k (by simp only [List.length_cons, List.length_append] at h; omega)]
+
+
+/-! ## the attribute loop over the reference parse -/
+
+def attrCall (a : Spec.Attr) : Call := .attr a.code a.flags a.value
+
+/-- the attribute type `decodePathAttrs` names when the block ends in junk -/
+def junkCode : Bytes → UInt8
+  | _ :: t :: _ => t
+  | _ => 0
+
+/-- `pathAttrsLoop` run over the reference parse of the block -/
+def loopOn (cb : Callbacks) : List Spec.Attr → Bytes → PAState → Sum PAState PAState
+  | [], junk, st =>
+    if junk = [] then .inl st
+    else .inl { st with me := joinErr st.me (some (totalAttrLenErr (junkCode junk))) }
+  | a :: as, junk, st =>
+    if st.seen.contains a.code then
+      if a.code = 14 ∨ a.code = 15 then .inr { st with me := joinErr st.me (some malformedAttrList) }
+      else loopOn cb as junk st
+    else
+      let c := attrCall a
+      let st' : PAState := { st with calls := st.calls ++ [c], seen := a.code :: st.seen }
+      match cb st.calls c with
+      | none => loopOn cb as junk st'
+      | some e =>
+        let st'' : PAState := { st' with me := joinErr st'.me (some e) }
+        if e.hasNotif then .inr st'' else loopOn cb as junk st''
+
+theorem loop_eq_loopOn (cb : Callbacks) : ∀ (fuel : Nat) (b : Bytes) (st : PAState), b.length < fuel →
+    pathAttrsLoop cb fuel b st = loopOn cb (Spec.attrs fuel b).1 (Spec.attrs fuel b).2 st := by
+  intro fuel
+  induction fuel with
+  | zero => intro b st h; simp at h
+  | succ fuel ih =>
+    intro b st h
+    match b, h with
+    | [], _ => simp [pathAttrsLoop, Spec.attrs, loopOn]
+    | [x], _ => simp [pathAttrsLoop, Spec.attrs, loopOn, junkCode]
+    | f :: t :: rest, h =>
+      by_cases hx : f.toNat / 16 % 2 = 1
+      · match rest, h with
+        | [], _ => simp [pathAttrsLoop, Spec.attrs, loopOn, junkCode, flagExtendedLen, hx]
+        | [l1], _ => simp [pathAttrsLoop, Spec.attrs, loopOn, junkCode, flagExtendedLen, hx]
+        | l1 :: l2 :: v, h =>
+          by_cases hlen : v.length < Spec.n16 l1 l2
+          · simp [pathAttrsLoop, Spec.attrs, loopOn, junkCode, flagExtendedLen, hx, be16_toNat, hlen]
+          · simp only [List.length_cons] at h
+            have hr : ∀ st, pathAttrsLoop cb fuel (List.drop (Spec.n16 l1 l2) v) st = _ :=
+              fun st => ih (List.drop (Spec.n16 l1 l2) v) st (by rw [List.length_drop]; omega)
+            simp only [pathAttrsLoop, Spec.attrs, flagExtendedLen, hx, decide_true, if_true, be16_toNat, hlen, if_false,
+              loopOn, Gen.PATH_ATTR_MP_REACH_NLRI, Gen.PATH_ATTR_MP_UNREACH_NLRI, malformedAttrList, attrCall, hr]
+            rfl
+      · match rest, h with
+        | [], _ => simp [pathAttrsLoop, Spec.attrs, loopOn, junkCode, flagExtendedLen, hx]
+        | l :: v, h =>
+          by_cases hlen : v.length < l.toNat
+          · simp [pathAttrsLoop, Spec.attrs, loopOn, junkCode, flagExtendedLen, hx, hlen]
+          · simp only [List.length_cons] at h
+            have hr : ∀ st, pathAttrsLoop cb fuel (List.drop l.toNat v) st = _ :=
+              fun st => ih (List.drop l.toNat v) st (by rw [List.length_drop]; omega)
+            simp only [pathAttrsLoop, Spec.attrs, flagExtendedLen, hx, decide_false, Bool.false_eq_true, hlen, if_false,
+              loopOn, Gen.PATH_ATTR_MP_REACH_NLRI, Gen.PATH_ATTR_MP_UNREACH_NLRI, malformedAttrList, attrCall, hr]
+            rfl
+
+
+/-- the mandatory-attribute check at the end of `decodePathAttrs` -/
+def finishAttrs (hasNLRI : Bool) : Sum PAState PAState → List Call × Option Err
+  | .inr st => (st.calls, st.me)
+  | .inl st =>
+    if st.seen.contains 14 ∨ hasNLRI then
+      if !st.seen.contains 2 ∨ !st.seen.contains 1 then
+        let missing : UInt8 := if !st.seen.contains 1 then 1 else 2
+        (st.calls, joinErr st.me (some (.taw missing (some ⟨3, 3, [missing]⟩))))
+      else (st.calls, st.me)
+    else (st.calls, st.me)
+
+theorem decodePathAttrs_eq (cb : Callbacks) (calls : List Call) (b : Bytes) (hasNLRI : Bool) :
+    decodePathAttrs cb calls b hasNLRI =
+      if b.length < 1 && !hasNLRI then (calls, none)
+      else finishAttrs hasNLRI (loopOn cb (Spec.parseAttrs b).1 (Spec.parseAttrs b).2 ⟨calls, none, []⟩) := by
+  unfold decodePathAttrs
+  rw [loop_eq_loopOn cb _ b _ (Nat.lt_succ_self _)]
+  unfold Spec.parseAttrs
+  split
+  · rfl
+  · generalize loopOn cb _ _ _ = r
+    cases r <;> rfl
+
+/-- everything `Decode` does once the three sections are known -/
+def decodeTail (cb : Callbacks) (w ab n : Bytes) : List Call × Option Err :=
+  let c := Call.wr w
+  let me := joinErr none (cb [] c)
+  if (cb [] c).any Err.hasNotif then ([c], me)
+  else
+    let r := decodePathAttrs cb [c] ab (n.length > 0)
+    let me := if r.2.isSome then joinErr me r.2 else me
+    if r.2.any Err.hasNotif then (r.1, me)
+    else
+      let cn := Call.nlri n
+      let nerr := cb r.1 cn
+      (r.1 ++ [cn], if nerr.isSome then joinErr me nerr else me)
+
+theorem partition_short {b : Bytes} (h : b.length < 4) : Spec.partition b = none := by
+  unfold Spec.partition
+  split
+  next w1 w2 r1 =>
+    simp only [List.length_cons] at h
+    have : r1.length < Spec.n16 w1 w2 + 2 := by omega
+    simp [this]
+  · rfl
+
+theorem decodeUpdate_eq (cb : Callbacks) (b : Bytes) :
+    decodeUpdate cb b = .ok (
+      if b.length < 4 then ([], some (.notif genericUpdateNotif))
+      else match Spec.partition b with
+        | none => ([], some malformedAttrList)
+        | some (w, ab, n) => decodeTail cb w ab n) := by
+  match b with
+  | [] => simp [decodeUpdate]
+  | [x] => simp [decodeUpdate]
+  | w1 :: w2 :: r1 =>
+    by_cases h4 : (w1 :: w2 :: r1).length < 4
+    · simp only [List.length_cons] at h4
+      simp only [decodeUpdate, List.length_cons, h4, if_true]
+    · simp only [List.length_cons] at h4
+      simp only [decodeUpdate, List.length_cons, h4, if_false, Spec.partition, be16_toNat]
+      by_cases hlen : r1.length < Spec.n16 w1 w2 + 2
+      · simp [hlen]
+      · simp only [hlen, if_false]
+        have hd : ∃ p1 p2 r2, List.drop (Spec.n16 w1 w2) r1 = p1 :: p2 :: r2 := by
+          match hh : List.drop (Spec.n16 w1 w2) r1 with
+          | [] => have := congrArg List.length hh; simp at this; omega
+          | [x] => have := congrArg List.length hh; simp at this; omega
+          | p1 :: p2 :: r2 => exact ⟨p1, p2, r2, rfl⟩
+        obtain ⟨p1, p2, r2, hd⟩ := hd
+        have hs1 : slice? r1 (Spec.n16 w1 w2) (Spec.n16 w1 w2 + 2) = some [p1, p2] := by
+          unfold slice?
+          rw [if_pos ⟨by omega, by omega⟩, hd]
+          simp
+        have hs2 : sliceFrom? r1 (Spec.n16 w1 w2 + 2) = some r2 := by
+          unfold sliceFrom?
+          rw [if_pos (by omega), ← List.drop_drop, hd]
+          simp
+        have hs3 : slice? r1 0 (Spec.n16 w1 w2) = some (r1.take (Spec.n16 w1 w2)) := by
+          unfold slice?
+          rw [if_pos ⟨by omega, by omega⟩]
+          simp
+        simp only [hs1, hs2, hs3, hd]
+        by_cases hpal : r2.length < Spec.n16 p1 p2
+        · simp [hpal]
+        · simp only [hpal, if_false, decodeTail]
+          split
+          · rfl
+          · split <;> rfl
+
+
+/-! ## nil-returning callbacks -/
+
+theorem fo_cons (a : Spec.Attr) (as : List Spec.Attr) (seen : List UInt8) :
+    Spec.firstOccurrences (a :: as) seen =
+      if seen.contains a.code then
+        (if a.code = 14 ∨ a.code = 15 then ([], true) else Spec.firstOccurrences as seen)
+      else (a :: (Spec.firstOccurrences as (a.code :: seen)).1, (Spec.firstOccurrences as (a.code :: seen)).2) := by
+  rfl
+
+/-- result of the loop when every callback returns nil -/
+def nilLoop (as : List Spec.Attr) (junk : Bytes) (st : PAState) : Sum PAState PAState :=
+  let r := Spec.firstOccurrences as st.seen
+  let calls := st.calls ++ r.1.map attrCall
+  let seen := (r.1.map (·.code)).reverse ++ st.seen
+  if r.2 then .inr ⟨calls, joinErr st.me (some malformedAttrList), seen⟩
+  else .inl ⟨calls, if junk = [] then st.me else joinErr st.me (some (totalAttrLenErr (junkCode junk))), seen⟩
+
+theorem loopOn_nil (cb : Callbacks) (hnil : ∀ h c, cb h c = none) (junk : Bytes) :
+    ∀ (as : List Spec.Attr) (st : PAState), loopOn cb as junk st = nilLoop as junk st := by
+  intro as
+  induction as with
+  | nil =>
+    intro st
+    simp only [loopOn, nilLoop, Spec.firstOccurrences, List.map_nil, List.append_nil, List.reverse_nil, List.nil_append]
+    split <;> simp
+  | cons a as ih =>
+    intro st
+    unfold loopOn
+    by_cases hs : st.seen.contains a.code = true
+    · by_cases hmp : a.code = 14 ∨ a.code = 15
+      · simp only [nilLoop, fo_cons, hs, if_true, hmp, List.map_nil, List.append_nil, List.reverse_nil, List.nil_append]
+      · simp only [hs, if_true, hmp, if_false, ih]
+        simp only [nilLoop, fo_cons, hs, if_true, hmp, if_false]
+    · simp only [hs, hnil, ih]
+      simp only [nilLoop, fo_cons, hs, if_false, List.map_cons, List.reverse_cons, List.append_assoc,
+        List.singleton_append, Bool.false_eq_true]
+
+
+/-- `decodePathAttrs` when every callback returns nil -/
+def nilAttrs (calls : List Call) (ab : Bytes) (hasNLRI : Bool) : List Call × Option Err :=
+  let p := Spec.parseAttrs ab
+  let r := Spec.firstOccurrences p.1 []
+  let calls' := calls ++ r.1.map attrCall
+  if r.2 then (calls', some (.join (.cons malformedAttrList .nil)))
+  else
+    let codes := r.1.map (·.code)
+    let me0 : Option Err := if p.2 = [] then none else some (.join (.cons (totalAttrLenErr (junkCode p.2)) .nil))
+    let missing : Option UInt8 :=
+      if hasNLRI ∨ codes.contains 14 then
+        (if !codes.contains 1 then some 1 else if !codes.contains 2 then some 2 else none)
+      else none
+    (calls', match missing with
+      | some c => joinErr me0 (some (.taw c (some ⟨3, 3, [c]⟩)))
+      | none => me0)
+
+theorem parseAttrs_nil : Spec.parseAttrs [] = ([], []) := rfl
+
+theorem decodePathAttrs_nil (cb : Callbacks) (hnil : ∀ h c, cb h c = none) (calls : List Call) (ab : Bytes)
+    (hasNLRI : Bool) : decodePathAttrs cb calls ab hasNLRI = nilAttrs calls ab hasNLRI := by
+  rw [decodePathAttrs_eq, loopOn_nil cb hnil]
+  by_cases hearly : (decide (ab.length < 1) && !hasNLRI) = true
+  · simp only [hearly, if_true]
+    simp only [Bool.and_eq_true, decide_eq_true_eq, Bool.not_eq_true'] at hearly
+    obtain ⟨h1, h2⟩ := hearly
+    have hab : ab = [] := by cases ab with | nil => rfl | cons _ _ => simp at h1
+    subst hab h2
+    simp [nilAttrs, parseAttrs_nil, Spec.firstOccurrences]
+  · simp only [hearly]
+    simp only [nilLoop, nilAttrs, List.append_nil]
+    generalize Spec.parseAttrs ab = p
+    generalize Spec.firstOccurrences p.1 [] = r
+    by_cases hrep : r.2 = true
+    · simp [hrep, finishAttrs, joinErr, malformedAttrList]
+    · simp only [hrep, Bool.false_eq_true, if_false, finishAttrs]
+      simp only [List.contains_eq_mem, List.mem_reverse, Bool.not_eq_true', decide_eq_false_iff_not, decide_eq_true_eq]
+      by_cases h14 : (14 : UInt8) ∈ List.map (fun x => x.code) r.1 <;>
+      by_cases h1 : (1 : UInt8) ∈ List.map (fun x => x.code) r.1 <;>
+      by_cases h2 : (2 : UInt8) ∈ List.map (fun x => x.code) r.1 <;>
+      cases hasNLRI <;> by_cases hj : p.2 = [] <;> simp [h14, h1, h2, hj, joinErr]
+
+
+/-- `decodeTail` when every callback returns nil -/
+def nilTail (w ab n : Bytes) : List Call × Option Err :=
+  let p := Spec.parseAttrs ab
+  let r := Spec.firstOccurrences p.1 []
+  let calls := [Call.wr w] ++ r.1.map attrCall
+  if r.2 then (calls, some (.join (.cons (.join (.cons malformedAttrList .nil)) .nil)))
+  else
+    let codes := r.1.map (·.code)
+    let me0 : Option Err := if p.2 = [] then none else some (.join (.cons (totalAttrLenErr (junkCode p.2)) .nil))
+    let missing : Option UInt8 :=
+      if n ≠ [] ∨ codes.contains 14 then
+        (if !codes.contains 1 then some 1 else if !codes.contains 2 then some 2 else none)
+      else none
+    let me1 : Option Err :=
+      match missing with
+      | some c => joinErr me0 (some (.taw c (some ⟨3, 3, [c]⟩)))
+      | none => me0
+    (calls ++ [.nlri n], joinErr none me1)
+
+theorem decodeTail_nil (cb : Callbacks) (hnil : ∀ h c, cb h c = none) (w ab n : Bytes) :
+    decodeTail cb w ab n = nilTail w ab n := by
+  unfold decodeTail
+  simp only [hnil, Option.any_none, Bool.false_eq_true, if_false, decodePathAttrs_nil cb hnil]
+  have hn : (decide (n.length > 0) = true) ↔ n ≠ [] := by
+    cases n <;> simp
+  simp only [nilAttrs, nilTail, hn]
+  generalize Spec.parseAttrs ab = p
+  generalize Spec.firstOccurrences p.1 [] = r
+  by_cases hrep : r.2 = true
+  · simp [hrep, joinErr, malformedAttrList, Err.hasNotif, ErrList.hasNotif]
+  · simp only [hrep, Bool.false_eq_true, if_false]
+    simp only [List.contains_eq_mem, Bool.not_eq_true', decide_eq_false_iff_not, decide_eq_true_eq]
+    by_cases h14 : (14 : UInt8) ∈ List.map (fun x => x.code) r.1 <;>
+    by_cases h1 : (1 : UInt8) ∈ List.map (fun x => x.code) r.1 <;>
+    by_cases h2 : (2 : UInt8) ∈ List.map (fun x => x.code) r.1 <;>
+    by_cases hnn : n = [] <;> by_cases hj : p.2 = [] <;>
+      simp [h14, h1, h2, hj, hnn, joinErr, Err.hasNotif, ErrList.hasNotif, totalAttrLenErr]
+
+
+/-! ## arbitrary callbacks: `joinErr` facts -/
+
+theorem joinErr_some_right (a : Option Err) (e : Err) : joinErr a (some e) ≠ none := by
+  cases a <;> simp [joinErr]
+
+theorem joinErr_some_left (a b : Option Err) (h : a ≠ none) : joinErr a b ≠ none := by
+  cases a <;> cases b <;> simp_all [joinErr]
+
+theorem joinErr_any_hasNotif (a b : Option Err) :
+    (joinErr a b).any Err.hasNotif = (a.any Err.hasNotif || b.any Err.hasNotif) := by
+  cases a <;> cases b <;> simp [joinErr, Err.hasNotif, ErrList.hasNotif]
+
+/-! ## arbitrary callbacks: a Notification-bearing callback error is the last call -/
+
+/-- no call in `calls` was answered with a Notification-bearing error -/
+def Quiet (cb : Callbacks) (calls : List Call) : Prop :=
+  ∀ i c x, calls[i]? = some c → cb (calls.take i) c = some x → x.hasNotif = false
+
+/-- … except possibly the last one -/
+def QuietButLast (cb : Callbacks) (calls : List Call) : Prop :=
+  ∀ i c x, i + 1 < calls.length → calls[i]? = some c → cb (calls.take i) c = some x → x.hasNotif = false
+
+theorem quiet_nil (cb : Callbacks) : Quiet cb [] := by
+  intro i c x h; simp at h
+
+theorem Quiet.butLast {cb : Callbacks} {calls : List Call} (h : Quiet cb calls) : QuietButLast cb calls :=
+  fun i c x _ hc hx => h i c x hc hx
+
+theorem Quiet.snoc {cb : Callbacks} {calls : List Call} {c : Call} (h : Quiet cb calls)
+    (hc : ∀ x, cb calls c = some x → x.hasNotif = false) : Quiet cb (calls ++ [c]) := by
+  intro i c' x hi hx
+  by_cases hlt : i < calls.length
+  · rw [List.getElem?_append_left hlt] at hi
+    rw [List.take_append_of_le_length (Nat.le_of_lt hlt)] at hx
+    exact h i c' x hi hx
+  · have hle : calls.length ≤ i := Nat.le_of_not_lt hlt
+    rw [List.getElem?_append_right hle] at hi
+    have : i - calls.length = 0 := by
+      cases hk : i - calls.length with
+      | zero => rfl
+      | succ k => rw [hk] at hi; simp at hi
+    have hieq : i = calls.length := by omega
+    subst hieq
+    simp at hi
+    subst hi
+    simp at hx
+    exact hc x hx
+
+theorem Quiet.snoc_butLast {cb : Callbacks} {calls : List Call} {c : Call} (h : Quiet cb calls) :
+    QuietButLast cb (calls ++ [c]) := by
+  intro i c' x hlt hi hx
+  simp at hlt
+  rw [List.getElem?_append_left hlt] at hi
+  rw [List.take_append_of_le_length (Nat.le_of_lt hlt)] at hx
+  exact h i c' x hi hx
+
+/-- what the loop guarantees about Notification-bearing callback errors -/
+def QuietRes (cb : Callbacks) : Sum PAState PAState → Prop
+  | .inl st' => Quiet cb st'.calls
+  | .inr st' => QuietButLast cb st'.calls ∧ st'.me.any Err.hasNotif = true
+
+theorem loopOn_quiet (cb : Callbacks) (junk : Bytes) : ∀ (as : List Spec.Attr) (st : PAState),
+    Quiet cb st.calls → QuietRes cb (loopOn cb as junk st) := by
+  intro as
+  induction as with
+  | nil =>
+    intro st hq
+    unfold loopOn
+    split <;> exact hq
+  | cons a as ih =>
+    intro st hq
+    unfold loopOn
+    split
+    · split
+      · exact ⟨hq.butLast, by simp [joinErr_any_hasNotif, malformedAttrList, Err.hasNotif]⟩
+      · exact ih st hq
+    · simp only
+      split
+      next hnone =>
+        exact ih _ (hq.snoc (by intro x hx; rw [hnone] at hx; cases hx))
+      next e hsome =>
+        split
+        next hn =>
+          exact ⟨hq.snoc_butLast, by simp [joinErr_any_hasNotif, hn]⟩
+        next hn =>
+          exact ih _ (hq.snoc (by intro x hx; rw [hsome] at hx; cases hx; simpa using hn))
+
+theorem decodePathAttrs_quiet (cb : Callbacks) (calls : List Call) (ab : Bytes) (hasNLRI : Bool)
+    (hq : Quiet cb calls) :
+    QuietButLast cb (decodePathAttrs cb calls ab hasNLRI).1 ∧
+    ((decodePathAttrs cb calls ab hasNLRI).2.any Err.hasNotif = false →
+      Quiet cb (decodePathAttrs cb calls ab hasNLRI).1) := by
+  rw [decodePathAttrs_eq]
+  split
+  · exact ⟨hq.butLast, fun _ => hq⟩
+  · have := loopOn_quiet cb (Spec.parseAttrs ab).2 (Spec.parseAttrs ab).1 ⟨calls, none, []⟩ hq
+    revert this
+    generalize loopOn cb _ _ _ = r
+    cases r with
+    | inl st' =>
+      intro h
+      simp only [QuietRes] at h
+      unfold finishAttrs
+      simp only
+      split
+      · split
+        · exact ⟨h.butLast, fun _ => h⟩
+        · exact ⟨h.butLast, fun _ => h⟩
+      · exact ⟨h.butLast, fun _ => h⟩
+    | inr st' =>
+      intro h
+      simp only [QuietRes] at h
+      simp only [finishAttrs]
+      exact ⟨h.1, fun hh => by rw [h.2] at hh; cases hh⟩
+
+theorem decodeTail_quiet (cb : Callbacks) (w ab n : Bytes) :
+    QuietButLast cb (decodeTail cb w ab n).1 := by
+  unfold decodeTail
+  simp only
+  split
+  · intro i c x hlt; simp at hlt
+  next h0 =>
+    have hq : Quiet cb [Call.wr w] := by
+      have := (quiet_nil cb).snoc (c := Call.wr w) (by
+        intro x hx; rw [hx] at h0; simpa using h0)
+      simpa using this
+    have := decodePathAttrs_quiet cb [Call.wr w] ab (decide (n.length > 0)) hq
+    split
+    · exact this.1
+    next h1 =>
+      exact (this.2 (by simpa using h1)).snoc_butLast
+
+
+/-! ## arbitrary callbacks: structural faults are never answered with nil -/
+
+/-- what the loop guarantees about structure, whatever the callbacks return -/
+def StructRes (as : List Spec.Attr) (junk : Bytes) (st : PAState) : Sum PAState PAState → Prop
+  | .inr st' => st'.me ≠ none
+  | .inl st' =>
+    (Spec.firstOccurrences as st.seen).2 = false ∧
+    (∀ c, c ∈ st'.seen ↔ c ∈ (Spec.firstOccurrences as st.seen).1.map (·.code) ∨ c ∈ st.seen) ∧
+    (junk ≠ [] → st'.me ≠ none) ∧ (st.me ≠ none → st'.me ≠ none)
+
+theorem loopOn_struct (cb : Callbacks) (junk : Bytes) : ∀ (as : List Spec.Attr) (st : PAState),
+    StructRes as junk st (loopOn cb as junk st) := by
+  intro as
+  induction as with
+  | nil =>
+    intro st
+    unfold loopOn
+    split
+    next hj => simp [StructRes, Spec.firstOccurrences, hj]
+    next hj => simp [StructRes, Spec.firstOccurrences, joinErr_some_right]
+  | cons a as ih =>
+    intro st
+    unfold loopOn
+    split
+    next hs =>
+      split
+      next hmp => exact joinErr_some_right _ _
+      next hmp =>
+        have := ih st
+        revert this
+        generalize loopOn cb as junk st = r
+        cases r <;> simp only [StructRes, fo_cons, hs, if_true, hmp, if_false] <;> exact id
+    next hs =>
+      simp only
+      have key : ∀ st1 : PAState, st1.seen = a.code :: st.seen → (st.me ≠ none → st1.me ≠ none) →
+          StructRes (a :: as) junk st (loopOn cb as junk st1) := by
+        intro st1 hseen hme
+        have := ih st1
+        revert this
+        generalize loopOn cb as junk st1 = r
+        cases r with
+        | inr st' => exact id
+        | inl st' =>
+          simp only [StructRes, fo_cons, hs, hseen, List.map_cons, List.mem_cons, Bool.false_eq_true, if_false]
+          rintro ⟨h1, h2, h3, h4⟩
+          refine ⟨h1, ?_, h3, fun h => h4 (hme h)⟩
+          intro c
+          rw [h2 c]
+          constructor
+          · rintro (h | h | h)
+            · exact Or.inl (Or.inr h)
+            · exact Or.inl (Or.inl h)
+            · exact Or.inr h
+          · rintro ((h | h) | h)
+            · exact Or.inr (Or.inl h)
+            · exact Or.inl h
+            · exact Or.inr (Or.inr h)
+      split
+      next hnone => exact key _ rfl id
+      next e hsome =>
+        split
+        next hn => exact joinErr_some_right _ _
+        next hn => exact key _ rfl (fun _ => joinErr_some_right _ _)
+
+
+/-- the block is structurally sound and has ORIGIN and AS_PATH if it announces routes -/
+def SoundBlock (ab : Bytes) (hasNLRI : Bool) : Prop :=
+  (Spec.firstOccurrences (Spec.parseAttrs ab).1 []).2 = false ∧ (Spec.parseAttrs ab).2 = [] ∧
+  (hasNLRI = true ∨ (14 : UInt8) ∈ (Spec.firstOccurrences (Spec.parseAttrs ab).1 []).1.map (·.code) →
+    (1 : UInt8) ∈ (Spec.firstOccurrences (Spec.parseAttrs ab).1 []).1.map (·.code) ∧
+    (2 : UInt8) ∈ (Spec.firstOccurrences (Spec.parseAttrs ab).1 []).1.map (·.code))
+
+theorem decodePathAttrs_struct (cb : Callbacks) (calls : List Call) (ab : Bytes) (hasNLRI : Bool)
+    (h : (decodePathAttrs cb calls ab hasNLRI).2 = none) : SoundBlock ab hasNLRI := by
+  rw [decodePathAttrs_eq] at h
+  split at h
+  next hearly =>
+    simp only [Bool.and_eq_true, decide_eq_true_eq, Bool.not_eq_true'] at hearly
+    obtain ⟨h1, h2⟩ := hearly
+    have hab : ab = [] := by cases ab with | nil => rfl | cons _ _ => simp at h1
+    subst hab h2
+    simp [SoundBlock, parseAttrs_nil, Spec.firstOccurrences]
+  next =>
+    have := loopOn_struct cb (Spec.parseAttrs ab).2 (Spec.parseAttrs ab).1 ⟨calls, none, []⟩
+    revert this h
+    generalize loopOn cb _ _ _ = r
+    cases r with
+    | inr st' =>
+      intro h hs
+      exact absurd h hs
+    | inl st' =>
+      simp only [StructRes, finishAttrs, List.contains_eq_mem, List.not_mem_nil, or_false, Bool.not_eq_true',
+        decide_eq_false_iff_not, decide_eq_true_eq, SoundBlock]
+      intro h ⟨h1, h2, h3, _⟩
+      simp only [h2] at h
+      by_cases hj : (Spec.parseAttrs ab).2 = []
+      · refine ⟨h1, hj, ?_⟩
+        intro hann
+        have hann' : (14 : UInt8) ∈ List.map (fun x => x.code) (Spec.firstOccurrences (Spec.parseAttrs ab).1 []).1 ∨ hasNLRI = true :=
+          hann.symm
+        simp only [hann', if_true] at h
+        split at h
+        · exact absurd h (joinErr_some_right _ _)
+        next hh =>
+          simp only [not_or, Decidable.not_not] at hh
+          exact ⟨hh.2, hh.1⟩
+      · exfalso
+        have hme := h3 hj
+        split at h
+        · split at h
+          · exact absurd h (joinErr_some_right _ _)
+          · exact hme h
+        · exact hme h
+
+theorem decodeTail_struct (cb : Callbacks) (w ab n : Bytes) (h : (decodeTail cb w ab n).2 = none) :
+    SoundBlock ab (decide (n.length > 0)) := by
+  unfold decodeTail at h
+  simp only at h
+  split at h
+  next h0 =>
+    exfalso
+    cases hr : cb [] (Call.wr w) with
+    | none => simp [hr] at h0
+    | some e => simp [hr, joinErr] at h
+  next h0 =>
+    split at h
+    next h1 =>
+      exfalso
+      cases hr : (decodePathAttrs cb [Call.wr w] ab (decide (n.length > 0))).2 with
+      | none => simp [hr] at h1
+      | some e =>
+        simp only [hr, Option.isSome_some, if_true] at h
+        exact joinErr_some_right _ _ h
+    next h1 =>
+      apply decodePathAttrs_struct cb [Call.wr w]
+      cases hr : (decodePathAttrs cb [Call.wr w] ab (decide (n.length > 0))).2 with
+      | none => rfl
+      | some e =>
+        exfalso
+        simp only [hr, Option.isSome_some, if_true] at h
+        split at h
+        · exact joinErr_some_left _ _ (joinErr_some_right _ _) h
+        · exact joinErr_some_right _ _ h
+
+theorem verdictNil_of_sound (b w ab n : Bytes) (hp : Spec.partition b = some (w, ab, n))
+    (hs : SoundBlock ab (decide (n.length > 0))) : (Spec.verdictNil b).cls = .none_ := by
+  have h4 : ¬ b.length < 4 := fun h => by rw [partition_short h] at hp; cases hp
+  have hn : (decide (n.length > 0) = true) ↔ n ≠ [] := by
+    cases n <;> simp
+  obtain ⟨h1, h2, h3⟩ := hs
+  rw [hn] at h3
+  simp only [Spec.verdictNil, h4, if_false, hp]
+  revert h1 h2 h3
+  generalize Spec.parseAttrs ab = p
+  generalize Spec.firstOccurrences p.1 [] = r
+  obtain ⟨as, junk⟩ := p
+  obtain ⟨fo, rep⟩ := r
+  intro h1 h2 h3
+  simp only at h1 h2 h3
+  subst h1 h2
+  simp only [List.contains_eq_mem, decide_eq_true_eq]
+  by_cases hann : n ≠ [] ∨ (14 : UInt8) ∈ List.map (fun x => x.code) fo
+  · have := h3 hann
+    simp only [if_pos hann, this.1, this.2, decide_true, Bool.not_true, Bool.false_eq_true, if_false]
+    simp
+  · simp only [if_neg hann]
+    simp
+
 end CoreBGP.Lemmas
+-- touch
